@@ -71,7 +71,7 @@ def poisson_interval(
         res = res.cumsum(dim=0)
 
         # limit steps to the maximum given
-        res = res.clamp_max_(steps).long()
+        res = res.clamp_max_(steps + 1).long()
 
         # convert steps to spikes via scattering
         res = torch.zeros_like(res, dtype=torch.bool).scatter_(0, res, 1)
